@@ -18,21 +18,56 @@ import (
 const Scale = 60
 
 // Pt is one input point of the model alphabet: time T (model seconds), field
-// x of kind K ("int", "float", "str", "bool", "none" = field missing) with value V,
-// a non-group tag h=H and a second field i (position, int) that identifies it.
+// x of kind K ("int", "float", "str", "bool", "none" = field missing) with value
+// S*Base + V (Base = the batch's magnitude class, S = 0 in the ordinary phases; Q
+// adds Q quarters to a float value), tags: the group tags unless NoG, h=H unless
+// H == "-", r=R unless R is "" or "-", and a second field i (position, int) that
+// identifies the point.
 type Pt struct {
-	T int
-	K string
-	V int
-	H string
-	I int
+	T   int
+	K   string
+	V   int
+	H   string
+	I   int
+	R   string
+	NoG bool
+	S   int
 }
 
-// Batch is one input batch of group g=G with end time Tmax.
+// Batch is one input batch of group g=G with end time Tmax.  Group "dd" has the
+// two group tags d=x,g=dd (TwoTag in the specification).  Base names the
+// magnitude class of the values ("" = none).
 type Batch struct {
 	G    string
 	Tmax int
 	Pts  []Pt
+	Base string
+}
+
+// Bases: magnitude classes, value = S*base + V.
+var Bases = map[string]int64{"1e9": 1000000000, "1e12": 1000000000000, "2^53": 1 << 53, "4e12": 4000000000000}
+
+func groupTags(g string) models.Tags {
+	if g == "dd" {
+		return models.Tags{"d": "x", "g": g}
+	}
+	return models.Tags{"g": g}
+}
+
+func tagsOf(g string, p Pt) models.Tags {
+	t := models.Tags{}
+	if !p.NoG {
+		for k, v := range groupTags(g) {
+			t[k] = v
+		}
+	}
+	if p.H != "-" && p.H != "" {
+		t["h"] = p.H
+	}
+	if p.R != "-" && p.R != "" {
+		t["r"] = p.R
+	}
+	return t
 }
 
 // Cfg is one InfluxQL node configuration.
@@ -88,13 +123,13 @@ func (c Cfg) Key() string {
 	return fmt.Sprintf("%s/%d/%v/%s/%v", c.Fn, c.Arg, c.Tags, c.As, c.UPT)
 }
 
-func fieldsOf(p Pt) models.Fields {
+func fieldsOf(p Pt, base int64) models.Fields {
 	f := models.Fields{"i": int64(p.I)}
 	switch p.K {
 	case "int":
-		f["x"] = int64(p.V)
+		f["x"] = int64(p.S)*base + int64(p.V)
 	case "float":
-		f["x"] = float64(p.V)
+		f["x"] = float64(int64(p.S)*base + int64(p.V)) // exact: |value| < 2^53 in every float class
 	case "str":
 		f["x"] = fmt.Sprintf("s%d", p.V)
 	case "bool":
@@ -106,17 +141,17 @@ func fieldsOf(p Pt) models.Fields {
 // MkBatch builds the edge message of a model batch (measurement m, group tag g,
 // every point carries the group tag and its own non-group tag h).
 func MkBatch(b Batch) edge.BufferedBatchMessage {
-	begin := edge.NewBeginBatchMessage("m", models.Tags{"g": b.G}, false, rt.DefaultTime.T(b.Tmax), len(b.Pts))
+	begin := edge.NewBeginBatchMessage("m", groupTags(b.G), false, rt.DefaultTime.T(b.Tmax), len(b.Pts))
 	pts := make([]edge.BatchPointMessage, len(b.Pts))
 	for k, p := range b.Pts {
-		pts[k] = edge.NewBatchPointMessage(fieldsOf(p), models.Tags{"g": b.G, "h": p.H}, rt.DefaultTime.T(p.T))
+		pts[k] = edge.NewBatchPointMessage(fieldsOf(p, Bases[b.Base]), tagsOf(b.G, p), rt.DefaultTime.T(p.T))
 	}
 	return edge.NewBufferedBatchMessage(begin, pts, edge.NewEndBatchMessage())
 }
 
 // MkPoint builds the line-protocol point of a model point for stream ingest.
 func MkPoint(g string, p Pt) imodels.Point {
-	pt, err := imodels.NewPoint("m", imodels.NewTags(map[string]string{"g": g, "h": p.H}), map[string]any(fieldsOf(p)), rt.DefaultTime.T(p.T))
+	pt, err := imodels.NewPoint("m", imodels.NewTags(map[string]string(tagsOf(g, p))), map[string]any(fieldsOf(p, 0)), rt.DefaultTime.T(p.T))
 	if err != nil {
 		rt.Fatalf("c11: cannot build point: %v", err)
 	}
@@ -136,7 +171,14 @@ func encPt(p Pt) rt.M {
 	case "none":
 		v = 0 // the field is missing: there is no value
 	}
-	return rt.M{"t": p.T, "k": p.K, "v": v, "h": p.H, "i": p.I}
+	h, r := p.H, p.R
+	if h == "" {
+		h = "-"
+	}
+	if r == "" {
+		r = "-"
+	}
+	return rt.M{"t": p.T, "k": p.K, "v": v, "h": h, "i": p.I, "r": r, "pg": !p.NoG, "s": p.S}
 }
 
 func EncInBatch(b Batch) rt.M {
